@@ -5,4 +5,5 @@ from . import conn, families, mc
 
 def run(v):
     mc.run_for(v, 'C01')
-    conn.check(v, 'C01', families.FAMILIES['C01'])
+    # (lease family: a parked request that is neither released nor kept when a lease allows it was not delivered)
+    conn.check(v, 'C01', families.FAMILIES['C01'], also=('C14.released_when_lease_allows', 'C14.each_request_sent_at_most_once'))
